@@ -13,6 +13,8 @@
  */
 #include "vf.h"
 
+#include <fenv.h>
+
 static int64_t n_eval, n_valid, n_single, n_multi;
 
 static int fault_mask(uint64_t h) {
@@ -348,6 +350,29 @@ static void stratum_closure(vf_rng *r) {
             if (VF_MINE(idx++)) closure_cell(seeds[i], r);
         int nr = VF_T(30, 400);
         for (int i = 0; i < nr; i++) closure_cell(vf_rand_cell(r, res), r);
+    }
+    /* the same drive with the calling thread in each directed floating-point rounding mode (part of the environment a caller
+     * may be in): outputs may legitimately differ in the last place, but every returned index must still be a valid cell */
+    {
+        static const int modes[3] = {FE_UPWARD, FE_DOWNWARD, FE_TOWARDZERO};
+        for (int m = 0; m < 3; m++)
+            for (int res = 0; res <= 15; res++) {
+                int n = vf_special_seeds(res, 1, seeds, 400);
+                for (int i = 0; i < n && i < 16; i++)
+                    if (VF_MINE(idx++)) {
+                        fesetround(modes[m]);
+                        closure_cell(seeds[i], r);
+                        fesetround(FE_TONEAREST);
+                        vf_add("closure.cells_under_directed_rounding", 1);
+                    }
+                for (int i = 0; i < VF_T(4, 40); i++) {
+                    H3Index h = vf_rand_cell(r, res);
+                    fesetround(modes[m]);
+                    closure_cell(h, r);
+                    fesetround(FE_TONEAREST);
+                    vf_add("closure.cells_under_directed_rounding", 1);
+                }
+            }
     }
 }
 
